@@ -135,3 +135,30 @@ def _version_replay(name, oracle):
 for _nm, _or in (('__eq__', lambda a, b: a == b), ('__ne__', lambda a, b: a != b), ('__lt__', lambda a, b: a < b), ('__le__', lambda a, b: a <= b),
                  ('__gt__', lambda a, b: a > b), ('__ge__', lambda a, b: a >= b), ('newer', lambda a, b: a > b)):
     W.contracts['dawgie.Version.' + _nm].replay = _version_replay(_nm, _or)
+
+
+# ---------------------------------------------------------------- replay of counter-models on the real schedule._diff
+def _diff_replay(model, vc):
+    """the two version tables of the solver's model as Python dicts (names over the model's finite universe of atoms),
+    through the real _diff, compared with 'current version not among the persisted ones'"""
+    import dawgie.pl.schedule as sched
+    uni = model.get_universe(ATOM.sort()) or []
+    ev = lambda t: model.eval(t, model_completion=True)
+    cur_t, prev_t = vc.inputs['curr'], vc.inputs['prev']
+    nm = lambda a: str(a)
+    curr, prev = {}, {}
+    for a in uni:
+        if not z3.is_true(ev(VMAP.opt.is_none(cur_t[a]))):
+            curr[nm(a)] = nm(ev(VMAP.opt.val(cur_t[a])))
+        if not z3.is_true(ev(PMAP.opt.is_none(prev_t[a]))):
+            s = PMAP.opt.val(prev_t[a])
+            prev[nm(a)] = [nm(b) for b in uni if z3.is_true(ev(s[b]))]
+    try:
+        got = sched._diff(curr, prev)
+    except Exception as e:
+        return {'reproduced': True, 'input': {'curr': curr, 'prev': prev}, 'observed': '%s: %s' % (type(e).__name__, e), 'expected': 'a list of names'}
+    want = sorted(k for k, v in curr.items() if k not in prev or v not in prev[k])
+    return {'reproduced': sorted(got) != want or len(got) != len(set(got)), 'input': {'curr': curr, 'prev': prev}, 'observed': sorted(got), 'expected': want}
+
+
+_diff.replay = staticmethod(_diff_replay)
